@@ -71,10 +71,10 @@ pub fn c04_builder_place_preserves_invariant() {
         let mut want = s;
         want.colors[c as usize] |= bit(q as u8);
         want.pieces[p as usize] |= bit(q as u8);
-        assert!(t == want);
+        assert!(t.same(&want));
         assert!(after.verif_parts().zobrist == h ^ chess_lookup::zobrist(q, p, c));
     } else {
-        assert!(t == s);
+        assert!(t.same(&s));
         assert!(after.verif_parts().zobrist == h);
     }
     kani::cover!(ok);
@@ -99,7 +99,7 @@ pub fn c04_builder_remove_preserves_invariant() {
         want.pieces[k] &= !bit(q as u8);
         k += 1;
     }
-    assert!(t == want);
+    assert!(t.same(&want));
     match (s.color_at(q as u8), s.piece_at(q as u8)) {
         (Some(c), Some(p)) => assert!(after.verif_parts().zobrist == h ^ chess_lookup::zobrist(q, piece(p), color(c))),
         _ => assert!(after.verif_parts().zobrist == h),
@@ -123,7 +123,7 @@ pub fn c04_builder_setters_and_build_keep_hash() {
     bld.turn(turn).half_move_clock(half).full_move_clock(full).enpassant(ep);
     let after = bld.verif_board();
     let t = to_sboard(&after);
-    assert!(t.colors == s.colors && t.pieces == s.pieces && t.rights == s.rights);
+    assert!(t.same_placement(&s) && t.rights == s.rights);
     assert!(t.turn == turn as u8 && t.half == half && t.full == full && t.ep == ep.map(|f| f as u8));
     assert!(after.verif_parts().zobrist == h);
 }
@@ -186,14 +186,14 @@ pub fn c04_eq_implies_equal_hash() {
     // shown inductive by the other harnesses). Here F is left uninterpreted: the two hashes are
     // arbitrary values that agree whenever the placements agree. Cached data and clocks are free:
     // Eq ignores them, the hash must too.
-    let same_placement = s.colors == t.colors && s.pieces == t.pieces;
+    let same_placement = s.same_placement(&t);
     let ha: u64 = kani::any();
     let hb: u64 = kani::any();
     kani::assume(!same_placement || ha == hb);
     let a = to_board(&s, kani::any(), kani::any(), ha);
     let b = to_board(&t, kani::any(), kani::any(), hb);
     let eq = a == b;
-    assert!(eq == (s.colors == t.colors && s.pieces == t.pieces && s.turn == t.turn && s.rights == t.rights && s.ep == t.ep));
+    assert!(eq == (s.same_placement(&t) && s.turn == t.turn && s.rights == t.rights && s.ep == t.ep));
     assert!((a != b) == !eq);
     if eq {
         assert!(a.zobrist() == b.zobrist());
